@@ -165,7 +165,28 @@ static Constraint_System mkcs(const Op& o, unsigned n) { Constraint_System cs; f
 static Generator_System mkgs(const Op& o, unsigned n) { Generator_System gs; for (size_t i = 0; i < o.gs.size(); ++i) gs.insert(mkg(o.gs[i].first, o.gs[i].second, n)); return gs; }
 static Complexity_Class cx(int v) { return v % 3 == 1 ? ANY_COMPLEXITY : v % 3 == 2 ? SIMPLEX_COMPLEXITY : POLYNOMIAL_COMPLEXITY; }
 
-struct Out { std::string exc, obs, rr, rc; bool rb; long ri; };
+struct Out { std::string exc, obs, rr, rc, plain, wtwin; bool rb; long ri; };
+static D* rebuilt(const D& x, int style) {
+  D c(x); unsigned sn = c.space_dimension(); D* q = 0;
+  if (style % 3 == 0) { Constraint_System cs = c.minimized_constraints(); q = new D(sn, UNIVERSE); q->refine_with_constraints(cs); }
+  else if (style % 3 == 1) { Constraint_System cs = c.constraints(); q = new D(sn, UNIVERSE); for (Constraint_System::const_iterator i = cs.begin(); i != cs.end(); ++i) q->refine_with_constraint(*i); (void) q->is_empty(); }
+  else { q = new D(sn, EMPTY); q->upper_bound_assign(c); }
+  return q;
+}
+static bool is_limited(const std::string& op) { return op.compare(0, 8, "limited_") == 0; }
+static void widen_call(const std::string& op, D* x, const D& y, const Constraint_System& cs, unsigned* tp) {
+#if VDOM == 1
+  if (op == "CC76_widening") x->CC76_widening_assign(y, tp); else if (op == "limited_CC76") x->limited_CC76_extrapolation_assign(y, cs, tp); else x->widening_assign(y, tp);
+#else
+  if (op == "CC76_widening") x->CC76_extrapolation_assign(y, tp); else if (op == "BHMZ05_widening") x->BHMZ05_widening_assign(y, tp);
+  else if (op == "limited_CC76") x->limited_CC76_extrapolation_assign(y, cs, tp); else if (op == "limited_BHMZ05") x->limited_BHMZ05_extrapolation_assign(y, cs, tp);
+#if VDOM == 2
+  else if (op == "H79_widening") x->H79_widening_assign(y, tp); else if (op == "limited_H79") x->limited_H79_extrapolation_assign(y, cs, tp);
+#endif
+  else x->widening_assign(y, tp);
+#endif
+}
+static std::string plain_of(const std::string& op) { return op == "limited_CC76" ? "CC76_widening" : op == "limited_BHMZ05" ? "BHMZ05_widening" : op == "limited_H79" ? "H79_widening" : op; }
 static void exec_op(const Op& o, Slot* S, Slot& d, Slot& s, Out& out) {
   std::string& exc = out.exc; std::string& obs = out.obs; std::string& rr = out.rr; std::string& rc = out.rc; bool& rb = out.rb; long& ri = out.ri;
   unsigned n = d.p ? d.p->space_dimension() : 0; const std::string& op = o.op;
@@ -240,7 +261,7 @@ static void exec_op(const Op& o, Slot* S, Slot& d, Slot& s, Out& out) {
       else if (op == "add_constraint") d.p->add_constraint(mkc(o.k, o.v, o.n));
 #if VDOM == 1
       else if (op == "refine_with_constraint" && o.var % 2) d.p->propagate_constraint(mkc(o.k, o.v, o.n));
-      else if (op == "refine_with_constraints" && o.var % 2) d.p->propagate_constraints(mkcs(o, o.n), o.den > 1 ? o.den : 0);
+      else if (op == "refine_with_constraints" && o.var % 2) d.p->propagate_constraints(mkcs(o, o.n), o.den > 1 ? o.den : 12);  // an unbounded number of iterations (0) may legitimately not terminate
 #endif
       else if (op == "refine_with_constraint") d.p->refine_with_constraint(mkc(o.k, o.v, o.n));
       else if (op == "add_constraints") { Constraint_System cs = mkcs(o, o.n); if (o.var % 2) d.p->add_recycled_constraints(cs); else d.p->add_constraints(cs); }
@@ -277,19 +298,17 @@ static void exec_op(const Op& o, Slot* S, Slot& d, Slot& s, Out& out) {
       else if (op == "dumpload") { std::stringstream ss; d.p->ascii_dump(ss); std::string t1 = ss.str(); D* q = new D(0, UNIVERSE); bool ok = q->ascii_load(ss);
         std::stringstream s2; q->ascii_dump(s2); ri = (ok ? 1 : 0) + (s2.str() == t1 ? 2 : 0) + (q->OK() ? 4 : 0); rb = (ri == 7); Slot& tgt = S[o.src > 0 ? o.src : o.dst]; delete tgt.p; tgt.p = q; }
       // ---------------- widenings (C08) and integer-aware operators (C17)
-      else if (op == "widening" || op == "CC76_widening" || op == "BHMZ05_widening" || op == "H79_widening" || op == "CC76_narrowing") { unsigned tk = o.den < 0 ? 0 : o.den; unsigned* tp = (o.mod > 0) ? &tk : 0;
-        if (op != "CC76_narrowing" && d.p->space_dimension() == s.p->space_dimension() && ((o.var % 2) || !d.p->contains(*s.p))) d.p->upper_bound_assign(*s.p);
-#if VDOM == 1
-        if (op == "CC76_narrowing") { if (s.p->contains(*d.p)) d.p->CC76_narrowing_assign(*s.p); else exc = "skipped"; } else if (op == "CC76_widening") d.p->CC76_widening_assign(*s.p, tp); else d.p->widening_assign(*s.p, tp);
-#else
-        if (op == "CC76_narrowing") { if (s.p->contains(*d.p)) d.p->CC76_narrowing_assign(*s.p); else exc = "skipped"; }
-        else if (op == "CC76_widening") d.p->CC76_extrapolation_assign(*s.p, tp); else if (op == "BHMZ05_widening") d.p->BHMZ05_widening_assign(*s.p, tp);
-#if VDOM == 2
-        else if (op == "H79_widening") d.p->H79_widening_assign(*s.p, tp);
-#endif
-        else d.p->widening_assign(*s.p, tp);
-#endif
-        ri = tk; }
+      else if (op == "CC76_narrowing") { if (s.p->space_dimension() != d.p->space_dimension() || s.p->contains(*d.p)) d.p->CC76_narrowing_assign(*s.p); else exc = "skipped"; }
+      else if (op == "widening" || op == "CC76_widening" || op == "BHMZ05_widening" || op == "H79_widening" || is_limited(op)) {
+        unsigned tk = o.den < 0 ? 0 : o.den; unsigned* tp = (o.mod > 0) ? &tk : 0; Constraint_System cs = mkcs(o, n);
+        if (d.p->space_dimension() != s.p->space_dimension() || &d == &s) { widen_call(op, d.p, *s.p, cs, tp); ri = tk; }
+        else {
+          d.p->upper_bound_assign(*s.p);      // z = receiver joined with the argument (the precondition of every widening)
+          { Slot t; t.p = new D(*d.p); Constraint_System none; widen_call(plain_of(op), t.p, *s.p, none, 0); out.plain = desc(t); delete t.p; }
+          { Slot tz; tz.p = rebuilt(*d.p, o.var); D* ts = rebuilt(*s.p, o.var + 1); unsigned tk2 = tk;
+            widen_call(op, tz.p, *ts, cs, tp ? &tk2 : 0); out.wtwin = desc(tz); out.rr = std::string("{\"ok\":true,\"num\":") + std::to_string(tk2) + ",\"den\":1,\"ext\":false,\"pt\":[]}"; delete tz.p; delete ts; }
+          widen_call(op, d.p, *s.p, cs, tp); ri = tk; }
+      }
       else if (op == "drop_non_integer") { if (o.vs.empty()) d.p->drop_some_non_integer_points(o.var % 2 ? ANY_COMPLEXITY : POLYNOMIAL_COMPLEXITY); else { Variables_Set vs; for (size_t i = 0; i < o.vs.size(); ++i) vs.insert(Variable(o.vs[i])); d.p->drop_some_non_integer_points(vs, o.var % 2 ? ANY_COMPLEXITY : POLYNOMIAL_COMPLEXITY); } }
       else exc = "unknown-op";
 }
@@ -304,7 +323,7 @@ static void run_history(const std::vector<std::string>& lines, int fd) {
     std::string exc = "";
     big = false; rowbig = false;
     const std::string& op = o.op;
-    Out out; out.exc = ""; out.obs = "[]"; out.rr = "{\"ok\":false,\"num\":0,\"den\":1,\"ext\":false,\"pt\":[]}"; out.rc = "{\"sat\":false,\"inc\":false,\"dis\":false,\"si\":false}"; out.rb = false; out.ri = 0;
+    Out out; out.plain = DEAD; out.wtwin = DEAD; out.exc = ""; out.obs = "[]"; out.rr = "{\"ok\":false,\"num\":0,\"den\":1,\"ext\":false,\"pt\":[]}"; out.rc = "{\"sat\":false,\"inc\":false,\"dis\":false,\"si\":false}"; out.rb = false; out.ri = 0;
     try { exec_op(o, S, d, s, out); exc = out.exc; }
     catch (std::invalid_argument&) { exc = "invalid_argument"; } catch (std::length_error&) { exc = "length_error"; }
     catch (std::domain_error&) { exc = "domain_error"; } catch (std::overflow_error&) { exc = "overflow_error"; }
@@ -317,7 +336,7 @@ static void run_history(const std::vector<std::string>& lines, int fd) {
     vj::Obj e; e.s("e", "Op").i("t", t).s("dom", DNAME).s("ty", TNAME).b("exact", EXACT).s("op", op).i("dst", o.dst).i("src", o.src).i("argn", o.n).s("topo", o.topo).s("k", o.k).i("var", o.var).i("den", o.den).i("mod", o.mod)
       .raw("v", vj::arr(o.v)).raw("w", vj::arr(o.w)).raw("vs", vj::arr(o.vs)).raw("cs", vj::arrs(ccs)).raw("gs", vj::arrs(ggs))
       .b("rb", out.rb).i("ri", out.ri).raw("rr", out.rr).raw("rc", out.rc).s("exc", exc).raw("obs", out.obs)
-      .raw("post", std::string("[") + p1 + "," + p2 + "," + p3 + "]").b("rowbig", rowbig).b("big", big);
+      .raw("post", std::string("[") + p1 + "," + p2 + "," + p3 + "]").raw("plain", out.plain).raw("wtwin", out.wtwin).b("rowbig", rowbig).b("big", big);
     W.line(e.str());
     if (big) { W.line("{\"e\":\"Reset\"}"); for (int i = 1; i <= 3; ++i) { delete S[i].p; S[i].p = 0; } }
   }
